@@ -120,6 +120,10 @@ function mk(kind) {
   case "tjnest": return tag({toJSON: function () { return {x: 2, toJSON: function () { return 1; }}; }}, "tj:nest");
   case "tjundef": return tag({toJSON: function () {}}, "tj:undef");
   case "tjnon": return tag({toJSON: 5, y: 1}, "tj:non");
+  case "tjfun": var tf = function () {}; tf.toJSON = function () { return "F"; }; return tag(tf, "tj:fun");
+  case "big7": return BigInt(7);
+  case "args": return tag((function () { return arguments; })(1, 2), "tj:args");
+  case "typed": return tag(new Uint8Array([1, 2]), "tj:typed");
   case "date0": return tag(new Date(0), "date0");
   case "datenan": return tag(new Date(NaN), "datenan");
   case "cyc": return ROOT.real;
@@ -135,9 +139,9 @@ function shapeOf(v, top) {
   case "number": return "#" + numText(v);
   case "string": return encQ(v);
   case "undefined": return "undef";
-  case "function": return "fun";
+  case "function": return REG.get(v) === "tj:fun" ? "tj:fun" : "fun";
   case "symbol": return "sym";
-  case "bigint": return "big";
+  case "bigint": return v === BigInt(7) ? "tj:big7" : "big";
   }
   if (!top && v === ROOT.real) return "cyc";
   if (v === SHARED) return "shared";
@@ -166,6 +170,7 @@ function mkRep(id) {
   case "wrap": return function (k, v) { return k === "" ? [v, v] : v; };
   case "allow_ba": return ["b", "a"];
   case "allow_mixed": return ["a", 1, new String("b"), {}, "a", new Number(1), null, true, undefined];
+  case "allow_nums": return [0, -0, 1.5, 1e21, "1", 1, NaN];
   case "allow_empty": return [];
   case "allow_h": return ["h", "a"];
   case "allow_px": return new Proxy(["b"], {});
@@ -203,7 +208,10 @@ function obs() {
   if (MODE === "parse") return {text: enc(TEXT), n: N};
   return {shape: ROOT === null ? "none" : shapeOf(ROOT.real, true), n: N};
 }
-var MODE = "parse";
+// MODE ("parse" | "str") is set by the prelude json_parse.js / json_str.js
+// BigInt.prototype.toJSON (kind "big7"): 7n serialises as "seven", every other BigInt is handed on unchanged
+Object.defineProperty(BigInt.prototype, "toJSON", {value: function () { "use strict"; return this === BigInt(7) ? "seven" : this; },
+                                                   writable: true, enumerable: false, configurable: true});
 function reset() {
   TEXT = ""; N = 0; ROOT = null; REG = new Map(); SHARED = {s: 1};
   return obs();
@@ -211,15 +219,13 @@ function reset() {
 function step(l) {
   var res;
   switch (l.op) {
-  case "app": MODE = "parse"; TEXT += dec(l.p); N++; res = parseRes(TEXT); break;
-  case "edit": MODE = "parse"; res = parseRes(edited(l.k, l.i, l.c)); break;
+  case "app": TEXT += dec(l.p); N++; res = parseRes(TEXT); break;
+  case "edit": res = parseRes(edited(l.k, l.i, l.c)); break;
   case "root":
-    MODE = "str";
     var rv = mk(l.kind);
     ROOT = {real: rv, kids: isContainer(l.kind) ? [] : null};
     N++; res = "ok"; break;
   case "add":
-    MODE = "str";
     var nd = nodeAt(l.path), c = nd.real, v = l.kind === "hole" ? undefined : mk(l.kind);
     if (nd.kids === null) throw new Error("not a container");
     if (l.k === "-") {
